@@ -303,6 +303,31 @@ def grid_size(ctx, kind, n):
     ctx.check_true('grid.size', len(pts) == total, str(len(pts)))
     ctx.check_eq_vec('grid.first_is_corner', pts[0], P[0])
     ctx.check_eq_vec('grid.last_is_corner', pts[-1], P[-1])
+    # densities that are not reciprocals of integers (1/delta = 2.5, 4.5, 3.5): the grid has as many points as the
+    # per-direction sample sizes say
+    names_d = {'curve': ['delta'], 'surface': ['delta_u', 'delta_v'], 'volume': ['delta_u', 'delta_v', 'delta_w']}[kind]
+    sizes_n = {'curve': ['sample_size'], 'surface': ['sample_size_u', 'sample_size_v'],
+               'volume': ['sample_size_u', 'sample_size_v', 'sample_size_w']}[kind]
+    for combo in ((Fraction(2, 5), Fraction(2, 9), Fraction(2, 7)), (Fraction(2, 9), Fraction(2, 5), Fraction(2, 5))):
+        for nm, dv in zip(names_d, combo):
+            setattr(shp, nm, L(dv))
+        per_dir = [getattr(shp, nm) for nm in sizes_n]
+        prod = 1
+        for c in per_dir:
+            prod *= c
+        ctx.check_true('nonreciprocal.grid.size=product_of_sample_sizes', len(shp.evalpts) == prod,
+                       '%d points, sample sizes %r' % (len(shp.evalpts), per_dir))
+        if kind != 'curve':
+            ctx.check_true('nonreciprocal.sample_size_tuple', list(shp.sample_size) == per_dir, '%r vs %r' % (shp.sample_size, per_dir))
+        ctx.check_eq_vec('nonreciprocal.grid.last_is_corner', shp.evalpts[-1], P[-1])
+    for nm, szn in zip(names_d, sizes_n):                    # back to the sizes of this instance
+        setattr(shp, szn, 2)
+    if kind == 'curve':
+        shp.sample_size = n
+    elif kind == 'surface':
+        shp.sample_size_u, shp.sample_size_v = 2, n
+    else:
+        shp.sample_size_u, shp.sample_size_v, shp.sample_size_w = 2, 2, n
     # a rejected density request (delta outside (0, 1), i.e. fewer than two samples) leaves the sampling as it was
     names = {'curve': ['delta'], 'surface': ['delta_u', 'delta_v'], 'volume': ['delta_u', 'delta_v', 'delta_w']}[kind]
     before = [getattr(shp, nm) for nm in names]
